@@ -1,0 +1,69 @@
+//! Verification hooks (only compiled with `--cfg deadpool_verif`).
+//!
+//! A *schedule point* is a named place between two statements of a pool
+//! operation. A test harness can install a thread-local callback which is
+//! invoked whenever the current thread passes such a point. Without a
+//! callback a point costs one thread-local read.
+
+use std::cell::RefCell;
+
+/// Callback type invoked at every schedule point of the current thread.
+pub type PointHook = Box<dyn FnMut(&'static str)>;
+
+thread_local! {
+    static HOOK: RefCell<Option<PointHook>> = const { RefCell::new(None) };
+}
+
+/// Installs (or removes) the schedule point callback of the current thread
+/// and returns the previous one.
+pub fn set_hook(hook: Option<PointHook>) -> Option<PointHook> {
+    HOOK.with(|h| std::mem::replace(&mut *h.borrow_mut(), hook))
+}
+
+/// Marks a schedule point.
+pub fn point(label: &'static str) {
+    let hook = HOOK.try_with(|h| h.borrow_mut().take()).ok().flatten();
+    if let Some(mut hook) = hook {
+        hook(label);
+        let _ = HOOK.try_with(|h| {
+            let mut slot = h.borrow_mut();
+            if slot.is_none() {
+                *slot = Some(hook);
+            }
+        });
+    }
+}
+
+/// Internal state of a managed pool as seen by a test harness.
+#[derive(Clone, Copy, Debug, PartialEq, Eq)]
+pub struct ManagedSnapshot {
+    /// Free permits of the semaphore.
+    pub permits: usize,
+    /// `size` counter.
+    pub size: usize,
+    /// `max_size` value.
+    pub max_size: usize,
+    /// Length of the idle queue.
+    pub idle: usize,
+    /// `users` counter.
+    pub users: usize,
+    /// Whether the semaphore has been closed.
+    pub closed: bool,
+}
+
+/// Internal state of an unmanaged pool as seen by a test harness.
+#[derive(Clone, Copy, Debug, PartialEq, Eq)]
+pub struct UnmanagedSnapshot {
+    /// Free permits of the object semaphore.
+    pub permits: usize,
+    /// Free permits of the size semaphore.
+    pub size_permits: usize,
+    /// `size` counter.
+    pub size: usize,
+    /// `available` counter.
+    pub available: isize,
+    /// Length of the queue.
+    pub queue: usize,
+    /// Whether the pool has been closed.
+    pub closed: bool,
+}
